@@ -127,7 +127,7 @@ func (d *driver) next() M {
 		case 4:
 			p["fw"] = pick(r, [][]any{{}, {"u1"}, {"u1", "u2"}, {"u1", l1.BadNotBech32}})
 		case 0:
-			p["execs"] = pick(r, [][]any{{"e1", "e2"}, {"e2"}, {"e1", "e3"}, {"e3", "e2", "e1"}, {"e1", l1.BadNotBech32}})
+			p["execs"] = pick(r, [][]any{{"e1", "e2"}, {"e2"}, {"e1", "e3"}, {"e3", "e2", "e1"}, {"e1", l1.BadNotBech32}, {"up:e1", "e2"}, {"up:e2"}})
 		case 1:
 			p["hookGas"] = pick(r, []string{"ample", "ample", "tiny", "zero"})
 		case 2:
